@@ -172,6 +172,8 @@ class Endpoint(threading.Thread):
                     self.results.put(("close", 1))
                 elif op == "entropy":
                     self.results.put(("entropy", sh.draws(), sh.log()))
+                elif op == "draws":
+                    self.results.put(("draws", [sh.draw(i) for i in range(min(sh.draws(), 1024))]))
                 else:
                     self.results.put(("unknown", op))
             except Exception as e:   # harness error inside the thread: surface it
